@@ -146,11 +146,27 @@ pub fn dress(img: &mut Store, v: &VolCfg, rng: &mut Rng) -> Result<(), String> {
             poke_fat(img, &g, c, g.bad_mark());
         }
     }
+    if v.tail_taken > 0 {
+        for k in 0..u32::from(v.tail_taken) {
+            if g.max_cluster() - k >= 3 {
+                poke_fat(img, &g, g.max_cluster() - k, g.bad_mark());
+            }
+        }
+    }
     if g.fat_bits == 32 {
         let fo = u64::from(g.fsinfo_sector) * u64::from(g.bps);
-        let free_now = (2..g.n_clusters + 2).filter(|c| refdec::fat_val(img, &g, *c) == 0).count() as u32;
         match v.fsinfo_mode {
-            0 => img.put_u32(fo + 488, free_now),
+            0 => {
+                // exact count: recount only when the allocation state was changed above (cheap on small volumes);
+                // a freshly formatted volume already carries the exact count
+                if v.ballast_keep.is_some() {
+                    let free_now = (2..g.n_clusters + 2).filter(|c| refdec::fat_val(img, &g, *c) == 0).count() as u32;
+                    img.put_u32(fo + 488, free_now);
+                } else if v.tail_taken > 0 {
+                    let cur = img.u32_at(fo + 488);
+                    img.put_u32(fo + 488, cur - u32::from(v.tail_taken).min(g.n_clusters.saturating_sub(1)));
+                }
+            }
             1 => img.put_u32(fo + 488, 0xFFFF_FFFF),
             _ => img.put_u32(fo + 488, g.n_clusters + 1 + (rng.below(1000) as u32)),
         }
@@ -238,6 +254,7 @@ pub fn draw_vol(rng: &mut Rng, fat: u8, small_root: bool) -> VolCfg {
         hint: None,
         status: 0,
         label: rng.chance(1, 4),
+        tail_taken: 0,
     }
 }
 
